@@ -962,3 +962,214 @@ def rule_Y1(prog, fixture=False):
         res.broken.append("anchor vanished: no user-provided copy / move assignment in the library")
     res.stats["assignment_operators"] = nops
     return res
+
+
+# ------------------------------------------------------------------------------------------------
+# M2: a lazily derived member follows the members it is derived from
+def _m2_props(rel):
+    if rel.endswith(("lms.h", "rls.h")):
+        return ["C12"]
+    if "/audio/" in rel or "agc" in rel:
+        return ["C20"]
+    if "resample" in rel:
+        return ["C08"]
+    if rel.endswith(("hilbert.h", "hilbert.cpp", "tuner.h", "delay.h")):
+        return ["C14", "C06"]
+    if "/fft/" in rel or rel.endswith(("fft.h", "ifft.h", "czt.h", "stft.cpp")):
+        return ["C10"]
+    return ["C06"]
+
+
+def _m2_bool_lit(e):
+    e = e.strip_all()
+    if e.k == "CXXBoolLiteralExpr":
+        return bool(e.get("v") in (True, "true", "1", 1))
+    if e.k == "IntegerLiteral" and str(e.get("v")) in ("0", "1"):
+        return str(e.get("v")) == "1"
+    return None
+
+
+def _m2_assignments(f, field):
+    """[(node, rhs)] plain assignments this->field = rhs; (node, None) for compound / other writes"""
+    out = []
+    for n in f.walk():
+        if n.k in ("BinaryOperator", "CompoundAssignOperator") and n.op and n.op.endswith("=") and n.op not in ("==", "!=", "<=", ">=") and len(n.c) == 2:
+            if _y1_this_field(n.c[0]) == field:
+                out.append((n, n.c[1] if n.op == "=" else None, n.op))
+    return out
+
+
+def _m2_source_writes(prog, m, srcs):
+    """[(block, index, member)] every write - whole, element-wise, through a mutating call or an output argument - of one of the members"""
+    from .flow import ACCESS_METHODS, OUTPUT_ITERATOR_RESULT
+    flow = Flow(m, prog, control=False)
+    out = []
+    for n in m.walk():
+        tgts = []
+        if n.k in ("BinaryOperator", "CompoundAssignOperator") and n.op and n.op.endswith("=") and n.op not in ("==", "!=", "<=", ">=") and len(n.c) == 2:
+            tgts = [n.c[0]]
+        elif n.k == "UnaryOperator" and n.op in ("++", "--") and n.c:
+            tgts = [n.c[0]]
+        elif n.k == "CXXOperatorCallExpr" and n.op and (n.op.endswith("=") and n.op not in ("==", "!=", "<=", ">=") or n.op in ("++", "--")) and len(n.c) > 1:
+            tgts = [n.c[1]]
+        elif n.is_call() and n.callee:
+            ce = n.callee
+            obj = n.call_object()
+            args = n.call_args()
+            pm = ce.get("pm", [])
+            wq = ce.get("qn", "")
+            if obj is not None and "cls" in ce and not ce.get("const") and n.k != "CXXConstructExpr" and wq.rsplit("::", 1)[-1] not in ACCESS_METHODS:
+                tgts.append(obj)
+            for i, a in enumerate(args):
+                if (pm[i] if i < len(pm) else "val") in ("ref", "ptr") and not (a.type or "").startswith("const "):
+                    tgts.append(a)
+            if wq in OUTPUT_ITERATOR_RESULT and args:
+                tgts.append(args[-1] if OUTPUT_ITERATOR_RESULT[wq] == "last" else args[0])
+        for t in tgts:
+            for r in flow.root(t):
+                if r[0] == "this" and r[1] in srcs:
+                    loc = m.block_of(n)
+                    if loc is not None:
+                        out.append((n, loc[0], loc[1], r[1]))
+    return out
+
+
+def rule_M2(prog, fixture=False):
+    res = RuleResult("M2", "a member that is derived lazily from other members under a dirty / valid flag follows them: every member "
+                           "function that writes a source member marks the derived one on every path to its exit (or recomputes "
+                           "it), and the mark is cleared only where the derived member has just been recomputed")
+    by_cls = {}
+    for f in prog.functions.values():
+        if f.cls and not f.get("implicit") and f.blocks:
+            by_cls.setdefault(f.cls, []).append(f)
+    nlazy = 0
+    for cls, fs in sorted(by_cls.items()):
+        cj = prog.classes.get(cls) or {}
+        bools = {x["name"] for x in cj.get("fields", []) if re.match(r"^(mutable )?(const )?bool$", x["ctype"].strip())}
+        if not bools:
+            continue
+        fs = sorted(fs, key=lambda g: (g.file, g.line, g.name))
+        lazies = {}       # (C, FLAG) -> (getter, dirty polarity, sources)
+        for g in fs:
+            for n in g.walk():
+                if n.k != "IfStmt":
+                    continue
+                cond = n.role("cond")
+                then = n.role("then")
+                if cond is None or then is None:
+                    continue
+                c0 = cond.strip_all()
+                pol = True
+                while c0.k == "UnaryOperator" and c0.op == "!" and c0.c:
+                    pol = not pol
+                    c0 = c0.c[0].strip_all()
+                flag = _y1_this_field(c0)
+                if flag not in bools:
+                    continue
+                # inside the branch: FLAG = literal(not pol) and a whole write of another member
+                clears = [x for x in then.walk() if x.k == "BinaryOperator" and x.op == "=" and len(x.c) == 2 and _y1_this_field(x.c[0]) == flag
+                          and _m2_bool_lit(x.c[1]) == (not pol)]
+                if not clears:
+                    continue
+                flow = Flow(g, prog, control=False, fields_env=False)
+                for x in then.walk():
+                    tgt, val = None, None
+                    if x.k == "BinaryOperator" and x.op == "=" and len(x.c) == 2:
+                        tgt, val = x.c[0], x.c[1]
+                    elif x.k == "CXXOperatorCallExpr" and x.op == "=" and len(x.c) >= 3:
+                        tgt, val = x.c[1], x.c[2]
+                    if tgt is None:
+                        continue
+                    cm = _y1_this_field(tgt)
+                    if cm is None or cm == flag:
+                        continue
+                    srcs = {a[1] for a in flow.deps(val) if a[0] == "this" and a[1] not in ("*", cm, flag)}
+                    if srcs:
+                        key = (cm, flag)
+                        if key in lazies:
+                            lazies[key][2].update(srcs)
+                        else:
+                            lazies[key] = [g, pol, set(srcs)]
+        for (cm, flag), (getter, pol, srcs) in sorted(lazies.items()):
+            nlazy += 1
+            rel = prog.rel(getter.file)
+            extra = {"props": _m2_props(rel)}
+            base = "M2:%s:%s" % (cls, cm)
+            what = "%s::%s (flag %s, derived from %s)" % (cls.rsplit("::", 1)[-1], cm, flag, ", ".join(sorted(srcs)))
+            bad_mark, bad_clear = None, None
+            for m in fs:
+                nm = m.name.rsplit("::", 1)[-1]
+                is_ctor = nm == cls.rsplit("::", 1)[-1].split("<")[0]
+                assigns = _m2_assignments(m, flag)
+                recompute = [n for n in m.walk() if ((n.k == "BinaryOperator" and n.op == "=" and len(n.c) == 2 and _y1_this_field(n.c[0]) == cm)
+                                                      or (n.k == "CXXOperatorCallExpr" and n.op == "=" and len(n.c) >= 3 and _y1_this_field(n.c[1]) == cm))]
+                # (b) clears
+                for (a, rhs, op) in assigns:
+                    lit = _m2_bool_lit(rhs) if rhs is not None else None
+                    if lit == pol:
+                        continue          # marks
+                    keep = False
+                    if rhs is None:
+                        keep = (op == "|=" and pol) or (op == "&=" and not pol)
+                    else:
+                        r0 = rhs.strip_all()
+                        if r0.k == "BinaryOperator" and r0.op == ("||" if pol else "&&") and any(_y1_this_field(c) == flag for c in r0.c):
+                            keep = True
+                    if keep:
+                        continue
+                    if any(m.precedes(r, a) for r in recompute):
+                        continue
+                    if bad_clear is None:
+                        bad_clear = (m, a)
+                if is_ctor:
+                    continue
+                # (a) writes of a source member are followed by a mark (or a recomputation) on every path to the exit
+                marks = [a for (a, rhs, op) in assigns if (rhs is not None and _m2_bool_lit(rhs) == pol)
+                         or (rhs is None and ((op == "|=" and pol) or (op == "&=" and not pol)))
+                         or (rhs is not None and rhs.strip_all().k == "BinaryOperator" and rhs.strip_all().op == ("||" if pol else "&&")
+                             and any(_y1_this_field(c) == flag for c in rhs.strip_all().c))] + recompute
+                # an assignment of something else than the literal is judged by the clear obligation; here it counts as a mark
+                marks = marks + [a for (a, rhs, op) in assigns if not any(a is x for x in marks)]
+                mark_locs = [m.block_of(a) for a in marks if m.block_of(a) is not None]
+                tb = tuple(m.throw_blocks())
+
+                def fact_set(node):
+                    return {(fa.cond.text(), fa.pol) for fa in m.facts_at(node)}
+                for (wn, wb, wi, src_) in _m2_source_writes(prog, m, srcs):
+                    if any(b == wb and i > wi for (b, i) in mark_locs):
+                        continue
+                    removed = tuple({b for (b, i) in mark_locs if b != wb}) + tb
+                    reach = set()
+                    for s_ in m.blocks[wb].succs:
+                        if s_ is not None and s_ not in removed:
+                            reach |= m.reachable(s_, removed_blocks=removed)
+                    if not (m.exit in reach or wb == m.exit):
+                        continue
+                    # a mark under the very conditions the write is under (if (adapt) update; ... if (adapt) stale = true;)
+                    wf = fact_set(wn)
+                    later = m.reachable_from_succs(wb)
+                    if any(m.block_of(a) is not None and m.block_of(a)[0] in later and fact_set(a) <= wf for a in marks):
+                        continue
+                    if bad_mark is None:
+                        bad_mark = (m, wn, src_)
+            if bad_clear:
+                (m, a) = bad_clear
+                res.add(base + ":clear", VIOLATED, "%s:%d" % (prog.rel(m.file), a.line), what,
+                        "%s (in %s) can take the mark off %s although %s has not been recomputed on the way: what an earlier call marked "
+                        "is forgotten and %s hands out the old value" % (a.text()[:70], m.short, cm, cm, getter.short), func=m.name, extra=extra)
+            else:
+                res.add(base + ":clear", DISCHARGED, "%s:%d" % (rel, getter.line), what,
+                        "the flag is cleared only behind a recomputation of %s" % cm, func=getter.name, extra=extra)
+            if bad_mark:
+                (m, wn, src) = bad_mark
+                line = wn.line
+                res.add(base + ":mark", VIOLATED, "%s:%d" % (prog.rel(m.file), line), what,
+                        "%s writes %s, from which %s is derived, and a path from there to its exit neither marks %s (%s) nor recomputes it: "
+                        "%s keeps handing out the value derived from the old %s" % (m.short, src, cm, cm, flag, getter.short, src),
+                        func=m.name, extra=extra)
+            else:
+                res.add(base + ":mark", DISCHARGED, "%s:%d" % (rel, getter.line), what,
+                        "every write of %s is followed by a mark or a recomputation on every path" % ", ".join(sorted(srcs)),
+                        func=getter.name, extra=extra)
+    res.stats["lazy_members"] = nlazy
+    return res
